@@ -768,6 +768,20 @@ func applyGeneric(m M, g gctx) {
 		setGen(1, 2)
 	case 6:
 		setGen(0, 0)
+	// explicit zeros: a field that is PRESENT with the value 0 is not an absent field
+	case 7:
+		setGen(1, 0)
+		setp(m, int64(0), "status", "observedGeneration")
+	case 8:
+		setGen(0, 1)
+		setp(m, int64(0), "metadata", "generation")
+	case 9:
+		setGen(0, 0)
+		setp(m, int64(0), "metadata", "generation")
+		setp(m, int64(0), "status", "observedGeneration")
+	case 10:
+		setGen(3, 0)
+		setp(m, int64(0), "status", "observedGeneration")
 	}
 	if len(g.conds) > 0 {
 		var old L
@@ -791,11 +805,11 @@ func applyGeneric(m M, g gctx) {
 }
 
 func gctxOf(idx int) gctx {
-	d := decodeRadix(idx, []int{3, 7, nGenericSeq, 2})
+	d := decodeRadix(idx, []int{3, 11, nGenericSeq, 2})
 	return gctx{del: d[0], gen: d[1], conds: genericSeq(d[2]), before: d[3] == 1}
 }
 
-const nGctx = 3 * 7 * nGenericSeq * 2
+const nGctx = 3 * 11 * nGenericSeq * 2
 
 func randomGctx(r *proto.Rng) gctx {
 	g := gctx{before: r.Bool()}
@@ -803,7 +817,7 @@ func randomGctx(r *proto.Rng) gctx {
 		g.del = 1 + r.Intn(2)
 	}
 	if r.Chance(1, 3) {
-		g.gen = 1 + r.Intn(6)
+		g.gen = 1 + r.Intn(10)
 	}
 	if r.Chance(1, 2) {
 		g.conds = genericSeq(r.Intn(nGenericSeq))
@@ -1053,8 +1067,11 @@ func statusRun(raw json.RawMessage) (any, error) {
 // ---------------------------------------------------------------------------------------------------------------
 // the malformed stream
 
-func badValue(r *proto.Rng) interface{} {
-	switch r.Intn(13) {
+func badValue(r *proto.Rng) interface{} { return badValueCase(r.Intn(13)) }
+
+// badValueCase builds a FRESH value each time (the same value must never be shared between two places of one object)
+func badValueCase(c int) interface{} {
+	switch c {
 	case 0:
 		return nil
 	case 1:
@@ -1142,6 +1159,16 @@ func malformedStream(e *emitter, r *proto.Rng, tier string) {
 		}
 		k := 1 + r.Intn(3)
 		var root interface{} = m
+		if r.Chance(1, 4) && len(g.paths) >= 2 {
+			// the SAME wrong-typed value at two of the kind's own paths (rules that compare two fields with each other meet two
+			// maps, two lists, …)
+			c := r.Intn(13)
+			a := r.Intn(len(g.paths))
+			b := (a + 1 + r.Intn(len(g.paths)-1)) % len(g.paths)
+			root = setAt(root, g.paths[a], badValueCase(c))
+			root = setAt(root, g.paths[b], badValueCase(c))
+			k--
+		}
 		for j := 0; j < k; j++ {
 			root = setAt(root, paths[r.Intn(len(paths))], badValue(r))
 		}
